@@ -136,8 +136,17 @@ def gen_event(rng, lo, hi, dyadic=True, wscale=1.0, ptscale=1.0, mode=None):
     m = rng.randint(lo, hi)
     ev = []
     mode = mode or rng.choice(["unset", "set", "mixed"])
+    r = rng.random()
+    zero_pt = "all" if r < 0.06 else ("some" if r < 0.16 else None)   # particles at rest in the transverse plane: pT exactly 0
+    tied = rng.random() < 0.15                                         # bit-identical pT with different weights
+    last_pt = None
     for _ in range(m):
         pt = (rng.randint(1, 40) / 8.0 if dyadic else rng.uniform(0.1, 5.0)) * ptscale
+        if zero_pt == "all" or (zero_pt == "some" and rng.random() < 0.4):
+            pt = 0.0
+        elif tied and last_pt is not None and rng.random() < 0.5:
+            pt = last_pt
+        last_pt = pt
         if mode == "unset" or (mode == "mixed" and rng.random() < 0.5):
             w = None
         else:
@@ -205,16 +214,19 @@ def oracle_check(evs, max_order, rel=1e-6, mode="fresh", corr_first=None, do_poi
         return (f"raises-{type(e).__name__}", f"mean_pT_correlations / mean_pT_cumulants raised {type(e).__name__}: {e} on an admissible sample",
                 dict(exception=type(e).__name__))
     Cex = []
+    ptmax = max([abs(pt) for ev in evs for _, pt in ev] + [0.0]) or 1.0
     for k in range(1, max_order + 1):
         n, d = exact_corr(evs, k)
         if d == 0:
             return None
         Cex.append(n / d)
-        if not close(c[k - 1], float(n / d), rel=rel):
+        # absolute floor: when the defining value is exactly 0 (a zero-pT particle in every tuple) the power-sum
+        # expansion leaves rounding noise proportional to the size of its terms, i.e. to ptmax^k
+        if not close(c[k - 1], float(n / d), rel=rel, abs_=1e-7 * ptmax ** k):
             return (f"corr-order-{k}", f"mean_pT_correlations order {k}: code {c[k-1]!r} != distinct-tuple definition {float(n/d)!r}",
                     dict(order=k, code=c[k - 1], expected=float(n / d)))
     kex = exact_cumulants(Cex)
-    scale = [abs(float(Cex[0])) ** (k + 1) for k in range(max_order)]  # kappa_k is homogeneous of degree k in pT
+    scale = [max(abs(float(Cex[0])), 1e-2 * ptmax) ** (k + 1) for k in range(max_order)]  # kappa_k is homogeneous of degree k in pT
     for k in range(max_order):
         if abs(kap[k] - float(kex[k])) > 1e-6 * max(scale[k], abs(float(kex[k]))) * (10 ** k if k > 3 else 1):
             return (f"kappa-order-{k+1}", f"mean_pT_cumulants order {k+1}: code {kap[k]!r} != cumulant of the defining correlations {float(kex[k])!r}",
@@ -275,8 +287,10 @@ def correspond(ctx):
             ok = out.startswith("ok ")
             if ok:
                 cs, ks = (common.parse_fl(t) for t in out.split()[1:3])
-                ok = all(close(a, b, rel=1e-7) for a, b in zip(c, cs)) and \
-                    all(close(a, b, rel=1e-6, abs_=1e-7 * abs(c[0]) ** (i + 1) * 10 ** i) for i, (a, b) in enumerate(zip(kap, ks)))
+                pm = max([abs(pt) for e in data for _, pt in e] + [0.0]) or 1.0
+                c1 = max(abs(c[0]), 1e-2 * pm)
+                ok = all(close(a, b, rel=1e-7, abs_=1e-7 * pm ** (i + 1)) for i, (a, b) in enumerate(zip(c, cs))) and \
+                    all(close(a, b, rel=1e-6, abs_=1e-7 * c1 ** (i + 1) * 10 ** i) for i, (a, b) in enumerate(zip(kap, ks)))
             mults = {len(e) for e in data}
             nontriv = len(mults) > 1 or any(w is not None for e in data for w, _ in e)
             ctx.case(("all", k, tuple(tuple(e) for e in data)), nontriv,
@@ -353,7 +367,8 @@ def homogeneity_check(rng, mo):
         want = c0[k] * 2.0 ** (b * (k + 1))
         # tolerance: the oracle's own.  The scaling is exact for +,-,* but libm's pow is only faithfully rounded, and with
         # M close to the order the power-sum expansion amplifies that last bit by many orders of magnitude.
-        if not ((want != want and c1[k] != c1[k]) or close(c1[k], want, rel=1e-6)):
+        pm = max([abs(pt) for e in scaled for _, pt in e] + [0.0]) or 1.0
+        if not ((want != want and c1[k] != c1[k]) or close(c1[k], want, rel=1e-6, abs_=1e-7 * pm ** (k + 1))):
             r = oracle_check(scaled, mo, mode="fresh")
             key = r[0] if r else f"corr-order-{k+1}"
             return (key + "-scaled", f"weights x 2^{a}, pT x 2^{b}: order {k+1} correlation {c1[k]!r}, "
